@@ -72,6 +72,10 @@ class BaseThread(threading.Thread):
         """
 
     def start(self) -> None:
+        if self.ident is not None:
+            # Do not run on_thread_start() again: it would replace what the running thread uses.
+            error = "threads can only be started once"
+            raise RuntimeError(error)
         self.on_thread_start()
         threading.Thread.start(self)
 
